@@ -82,7 +82,14 @@ void UseResult(const T& v) {
   a.clear();
 }
 
+template <typename E>
+void UseResultVoidE() {
+  Result<E, void> a; Result<E, void> b{E::A}; Result<E, void> c{b}; Result<E, void> d{std::move(c)};
+  a = b; a = std::move(d); (void)a.has_error(); (void)static_cast<bool>(a); (void)a.error(); a.clear();
+}
+
 void UseResultVoid() {
+  UseResultVoidE<Err2>();
   Result<Err, void> a; Result<Err, void> b{Err::A}; Result<Err, void> c{b}; Result<Err, void> d{std::move(c)};
   a = b; a = std::move(d); (void)a.has_error(); (void)static_cast<bool>(a); (void)a.error(); a.clear();
   Status<void> s; Status<int> si{1}; (void)s.GetErrorMessage(); (void)si.GetErrorMessage();
